@@ -202,12 +202,22 @@ def generate(tier, seed, casedir, variant):
     except Exception as ex:
         viol.append({"detail": f"separable / pointwise term comparison raised {type(ex).__name__}: {str(ex)[:300]}", "case": {"what": "impl_vs_impl"}})
     dist["separable_vs_pointwise_rounds"] = nsep
+    # the same three terms inside system losses: weighted sum over the unknowns of the single-network terms (oracle only)
+    import c13
+    nsys = 9 if tier == "quick" else 45
+    try:
+        viol += c13.system_terms_oracle(rng, nsys, terms=("initial_condition", "observations", "norm_loss"))
+    except Exception as ex:
+        viol.append({"detail": f"system terms comparison raised {type(ex).__name__}: {str(ex)[:300]}", "case": {"what": "system terms"}})
+    dist["system_loss_rounds"] = nsys
     return dict(meta=meta, oracle_violations=viol, evaluations=len(cases), distinct_nontrivial=len(nontrivial), samples=samples, distribution=dist,
-                rule="per (term, loss kind): random polynomial networks with 1..3 outputs whose output adds the equation parameter a, dyadic points, scalar and per-component weights, solution / observation slices (the stationary normalisation term too is taken over the solution slice), observed parameter rows present or not, initial-condition functions returning an array or a scalar, half of the initial-condition / normalisation cases next to an observation part whose observed parameter rows must not reach them, every loss evaluated twice on the same objects; plus separable-network against pointwise initial-condition / normalisation terms (oracle only); non-trivial = the term is non-zero",
+                rule="per (term, loss kind): random polynomial networks with 1..3 outputs whose output adds the equation parameter a, dyadic points, scalar and per-component weights, solution / observation slices (the stationary normalisation term too is taken over the solution slice), observed parameter rows present or not, initial-condition functions returning an array or a scalar, half of the initial-condition / normalisation cases next to an observation part whose observed parameter rows must not reach them, every loss evaluated twice on the same objects; plus separable-network against pointwise initial-condition / normalisation terms (oracle only); plus the three terms of random system losses against the weighted sums of the single-network terms (oracle only); non-trivial = the term is non-zero",
                 oracle_checks=0)
 
 
 def replay(rep, casedir, variant):
+    if rep["case"].get("what") in ("terms", "impl_vs_impl", "residual", "vector operator", "system terms"):       # oracle-only comparisons are regenerated from the seed of the run
+        return generate("quick", rep.get("seed", 0), casedir, variant)
     cfg = unjson(rep["case"])
     first, obs = evaluate(cfg, both=True)
     ov = [] if first == obs else [{"detail": f"the term is {first} on the first evaluation and {obs} on the second one", "case": rep["case"]}]
